@@ -219,6 +219,9 @@ func cmdDeterminism(seed int64, n int, out, replay, tier string) {
 		}
 	} else {
 		for _, d := range directedHistories() {
+			if _, err := newHistRun(d.in.Cfgs); err != nil {
+				continue // a configuration the factory refuses: nothing to evaluate repeatedly
+			}
 			cs = append(cs, detCase(d.in, 3*k, "directed", d.name))
 		}
 		r := rand.New(rand.NewSource(seed))
